@@ -4,7 +4,10 @@ from ..gen import KEY_POOL, rng_for
 from . import c03
 
 ENGINES = ["memkv", "badger", "tikv"]
-EXTRA_PROP_MODULES = [("KB.Props.C02Store", "KB.C02Store"), ("KB.Props.C02Lag", "KB.C02Lag"), ("KB.Props.OrderC15", "KB.OrderC15")]
+EXTRA_PROP_MODULES = [("KB.Props.C02Store", "KB.C02Store"), ("KB.Props.C02Lag", "KB.C02Lag"), ("KB.Props.OrderC15", "KB.OrderC15"),
+                      # uniqueness of a dealt revision at the allocator's own granularity (one atomic instruction per step,
+                      # refusals of a full window included), tied to tso.go by the regenerated shape facts
+                      ("KB.Props.C18Cas", "KB.C18Cas")]
 
 
 def lag_case(seed, i, engine):
@@ -145,3 +148,7 @@ def check(rep, tier, seed):
             core.handle_diff(rep, "C02", "correspondence-seq", c)
             return
     rep.assumptions += ["real time is observed at script granularity: A completed before B began = A's `done` line precedes B's `start` line"]
+    if not rep.violations:
+        # the allocator itself under concurrent Deal / Commit, incl. the edge of a full window (supporting evidence and search)
+        from .. import tsocas
+        tsocas.run_dynamic(rep, "C02", seed)
